@@ -9,6 +9,7 @@ import (
 	"errors"
 	"fmt"
 	"io"
+	"net/url"
 	"runtime"
 	"strings"
 	"sync"
@@ -92,6 +93,10 @@ func (r Ret) Err(ctx context.Context) error {
 		return context.DeadlineExceeded
 	case "okcoded":
 		return okCodedError{r.Msg}
+	case "wrapped-canceled": // what a handler gets back from a downstream call that was given its context
+		return fmt.Errorf("downstream call: %w", context.Canceled)
+	case "wrapped-deadline":
+		return &url.Error{Op: "Post", URL: "http://downstream.test/", Err: context.DeadlineExceeded}
 	}
 	panic("bad Ret.How " + r.How)
 }
@@ -107,19 +112,19 @@ type Op struct {
 
 // Script is one generated RPC program.
 type Script struct {
-	Kind     Kind         `json:"kind"`
-	ReqMD    metadata.MD  `json:"req_md,omitempty"`
-	UnaryReq *tpb.Message `json:"-"`
-	Sender   []Op         `json:"sender,omitempty"`   // client ops, goroutine 1 (for unary: ignored)
-	Receiver []Op         `json:"receiver,omitempty"` // client ops, goroutine 2 (optional)
-	Handler  []Op         `json:"handler,omitempty"`
-	Resp     *tpb.Message `json:"-"` // unary response (nil allowed)
-	Ret      Ret          `json:"ret"`
-	NHdrOpt  int          `json:"n_header_opts,omitempty"`
-	NTrlOpt  int          `json:"n_trailer_opts,omitempty"`
-	PeerOpt  bool         `json:"peer_opt,omitempty"`
-	ReuseDest bool `json:"reuse_dest,omitempty"` // each side receives every message into one and the same message value
-	CredMD    map[string]string `json:"cred_md,omitempty"` // metadata of per-RPC credentials attached to the call
+	Kind      Kind              `json:"kind"`
+	ReqMD     metadata.MD       `json:"req_md,omitempty"`
+	UnaryReq  *tpb.Message      `json:"-"`
+	Sender    []Op              `json:"sender,omitempty"`   // client ops, goroutine 1 (for unary: ignored)
+	Receiver  []Op              `json:"receiver,omitempty"` // client ops, goroutine 2 (optional)
+	Handler   []Op              `json:"handler,omitempty"`
+	Resp      *tpb.Message      `json:"-"` // unary response (nil allowed)
+	Ret       Ret               `json:"ret"`
+	NHdrOpt   int               `json:"n_header_opts,omitempty"`
+	NTrlOpt   int               `json:"n_trailer_opts,omitempty"`
+	PeerOpt   bool              `json:"peer_opt,omitempty"`
+	ReuseDest bool              `json:"reuse_dest,omitempty"` // each side receives every message into one and the same message value
+	CredMD    map[string]string `json:"cred_md,omitempty"`    // metadata of per-RPC credentials attached to the call
 	// RecvFirst makes the receiver goroutine start only after the sender
 	// goroutine has finished (needed for HTTP half-duplex).
 	RecvAfterSend bool `json:"recv_after_send,omitempty"`
@@ -210,9 +215,9 @@ type Run struct {
 	HSendDone     atomic.Int64 // handler sends that returned nil
 	// Lead records every moment a sender was more than one message ahead of
 	// the receives its peer had started (checked when a send returns).
-	leadMu sync.Mutex
-	Lead   []string
-	cReuse, hReuse *tpb.Message // receive destinations with Script.ReuseDest
+	leadMu         sync.Mutex
+	Lead           []string
+	cReuse, hReuse *tpb.Message   // receive destinations with Script.ReuseDest
 	bg             sync.WaitGroup // goroutines started by "bg-sends"
 	// AfterOpen, if set, runs in the caller's goroutine straight after NewStream returned.
 	AfterOpen func()
@@ -706,9 +711,9 @@ func (r *Run) runHandlerOps(ctx context.Context, stream grpc.ServerStream) {
 		default:
 			panic("bad handler op " + op.Op)
 		}
-		}
-		r.bg.Wait()
-		}
+	}
+	r.bg.Wait()
+}
 
 // ---------------------------------------------------------------------------
 // Client actor
